@@ -355,6 +355,7 @@ class Harness:
         self.aux_tasks = []
         self.tokens = {}  # address -> set of Retry tokens the server sent there
         self.amp_recv, self.amp_sent = {}, {}
+        self.other_handler = None
         self.violation = None
         self.bytes_echoed = 0
         self.ops_log = []
@@ -405,6 +406,27 @@ class Harness:
         if pkts and pkts[0].ptype == "retry":
             self.tokens.setdefault(dst, set()).add(bytes(pkts[0].token))
             self.probes["retry_sent"] += 1
+            # "only for tokens it issued": another token handler of the same process (a second server) has its own
+            # key and must not accept this server's token
+            if self.other_handler is None:
+                from aioquic.quic.retry import QuicRetryTokenHandler
+
+                self.other_handler = QuicRetryTokenHandler()
+            accepted = False
+            from sim.simloop import as_seen_by_v6_socket
+
+            for form in (dst, as_seen_by_v6_socket(dst)):  # the server's socket may report the mapped form
+                try:
+                    self.other_handler.validate_token(form, bytes(pkts[0].token))
+                    accepted = True
+                except Exception:
+                    pass
+            self.probes["token_offered_to_another_handler"] += 1
+            if accepted:
+                self.flag(Violation("c19.retry-validation", "token-accepted-by-another-handler",
+                                    "t=%.6f: a Retry token issued by the server to %s:%d is accepted by a second "
+                                    "QuicRetryTokenHandler of the same process, which never issued it" % (
+                                        self.loop.time(), dst[0], dst[1])))
 
     def _initial_of(self, data):
         from wire.header import parse_datagram
@@ -1080,6 +1102,7 @@ def run_one(seed, tier="quick", variant=None, replay=None):
     simloop.install_client_socket_shim()
     bootstrap.DET.reseed(seed)
     bootstrap.WALL.offset = 0.0
+    bootstrap.RETRY_KEY_INDEX[0] = 0
     ch = Chooser(seed, replay)
     h = Harness(ch, variant)
     loop = h.loop
